@@ -153,6 +153,7 @@ def check(case, o):
         return fails
     if must_refuse and emitted:
         fail("emitted-must-refuse", "status/headers that must be refused were emitted: status line %r" % sl[:80])
+        return fails
     if not emitted:
         if not is500:
             fail("neither-emitted-nor-500", "status line %r" % sl[:80])
@@ -246,6 +247,18 @@ def run_case_full(case):
 
 
 def run_case(case):
+    if case.get("optimized") and not sys.flags.optimize:
+        # replay of a case found in the -O interpreter: same interpreter flags
+        import json
+        import os
+        import subprocess
+        root = os.path.dirname(os.path.dirname(os.path.dirname(os.path.abspath(__file__))))
+        prog = ("import sys, json; sys.path.insert(0, %r); from vf import runner; runner.setup_path(); from vf.props import c08\n"
+                "json.dump(c08.run_case(json.load(sys.stdin)), sys.stdout)\n") % root
+        p = subprocess.run([sys.executable, "-O", "-c", prog], input=json.dumps(case), stdout=subprocess.PIPE, stderr=subprocess.PIPE, text=True)
+        if p.returncode != 0:
+            raise C.CaseInvalid("python -O subprocess: " + p.stderr[-300:])
+        return [dict(f, sig=f["sig"].replace("C08/", "C08/python-O/", 1)) for f in json.loads(p.stdout)]
     return run_case_full(case)[0]
 
 
@@ -305,6 +318,8 @@ def case_strategy():
 
 def jobs(tier, seed):
     js = [{"kind": "positional", "shard": s, "nshards": 8} for s in range(8)]
+    # the same table in an interpreter started with -O (assert statements compiled away): the refusals must not depend on it
+    js += [{"kind": "optimized", "shard": s, "nshards": 2} for s in range(2)]
     n = 1500 if tier == "quick" else 40000
     for sh in range(16):
         js.append({"kind": "hyp", "n": n, "seed": derive_seed(seed, "c08", sh)})
@@ -319,6 +334,25 @@ def run_job(job, col):
             return
         col.record(case, fs, nontrivial=nt, labels=labels)
 
+    if job["kind"] == "optimized":
+        import json
+        import os
+        import subprocess
+        root = os.path.dirname(os.path.dirname(os.path.dirname(os.path.abspath(__file__))))
+        cases = [c for i, c in enumerate(positional_cases()) if i % job["nshards"] == job["shard"]]
+        prog = ("import sys, json; sys.path.insert(0, %r); from vf import runner; runner.setup_path(); from vf.props import c08; from vf import case as C\n"
+                "out = []\n"
+                "for c in json.load(sys.stdin):\n"
+                "    try:\n        out.append(c08.run_case(c))\n    except C.CaseInvalid:\n        out.append(None)\n"
+                "json.dump(out, sys.stdout)\n") % root
+        p = subprocess.run([sys.executable, "-O", "-c", prog], input=json.dumps(cases), stdout=subprocess.PIPE, stderr=subprocess.PIPE, text=True, env=dict(os.environ))
+        if p.returncode != 0:
+            raise RuntimeError("python -O subprocess failed: " + p.stderr[-1500:])
+        for c, fs in zip(cases, json.loads(p.stdout)):
+            if fs is None:
+                continue
+            col.record(dict(c, optimized=True), [dict(f, sig=f["sig"].replace("C08/", "C08/python-O/", 1)) for f in fs], nontrivial=True, labels=("python -O",))
+        return
     if job["kind"] == "positional":
         for i, c in enumerate(positional_cases()):
             if i % job["nshards"] == job["shard"]:
